@@ -350,5 +350,10 @@ def extra_validation():
         (["-n", "-b", "1 + 2"], "", 2, []), (["-n", "-b", "1 / 0 == 1"], "", 2, []), (["-n", "1 +"], "", 1, []),
         ([".a"], '{"a": 1}\n{"a": 2}\n', 0, ["1", "2"]), (["-b", ".a > 1"], '{"a": 1}\n{"a": 2}\n', 1, ["false", "true"]),
         ([".a"], '{"a": 1}\nnot json\n{"a": 3}\n', 3, ["1", "3"]), (["-s", ".a"], '{"a":\n 5}', 0, ["5"]),
-        (["-n", "-a", "x:int=41", "x + 1"], "", 0, ["42"]), (["-n", '"s" + "t"'], "", 0, ['"st"']), (["-n", "[1, true, null]"], "", 0, ["[1, true, null]"])]]
+        (["-n", "-a", "x:int=41", "x + 1"], "", 0, ["42"]), (["-n", '"s" + "t"'], "", 0, ['"st"']), (["-n", "[1, true, null]"], "", 0, ["[1, true, null]"]),
+        (["-n", "[[true]]"], "", 0, ["[[true]]"]), (["-n", "[1, [true, false]]"], "", 0, ["[1, [true, false]]"]), (["-n", "{'k': [[false]], 'n': [1, [2 > 1]]}"], "", 0, ['{"k": [[false]], "n": [1, [true]]}']),
+        (["-d", "doc", "doc"], '[[true, false]]\n', 0, ["[[true, false]]"]),
+        # numerically equal values of different JSON types in different documents of one stream
+        (["-d", "doc", "string(doc.v)"], '{"v": 3}\n{"v": 3.0}\n{"v": 3}\n', 0, ['"3"', '"3.0"', '"3"']), (["-d", "doc", "[doc.v]"], '{"v": 1.0}\n{"v": 1}\n{"v": true}\n', 0, ["[1.0]", "[1]", "[true]"]),
+        (["-d", "doc", "doc.v == 0"], '{"v": 0}\n{"v": false}\n', 0, None)]]
     return ws
